@@ -31,9 +31,9 @@ _MO = ["contracts.more"]
 CONTRACT_MODULES = {
     "C12": ["contracts.c12"] + _RT + _MO,
     "C04": ["contracts.c12"] + _RT + _TF + _LC + _SP + _MO + _OV,
-    "C02": _RT + _OV + _IN + _TF + _LC + _MO, "C16": _RT + _TF + ["contracts.tags"] + _MO, "C01": _RT + _TF + ["contracts.tags"] + _MO, "C06": _TF + _MO,
-    "C03": _OV + _IN + ["contracts.lemmas"] + _MO, "C07": _OV + _IN + ["contracts.lemmas"] + _MO, "C11": _IN + _OV + _TF + ["contracts.tags"] + _SP + _LC,
-    "C05": _OV + _LC + _TF + _MO, "C09": _OV, "C17": _OV + _LC + _MO, "C10": _OV + _LC + _TF + _SP,
+    "C02": _RT + _OV + _IN + _TF + _LC + _MO, "C16": _RT + _TF + ["contracts.tags"] + _MO, "C01": _RT + _TF + ["contracts.tags"] + _MO + _OV, "C06": _TF + _MO + _OV + _LC,
+    "C03": _OV + _IN + ["contracts.lemmas"] + _MO, "C07": _OV + _IN + ["contracts.lemmas"] + _MO + _LC, "C11": _IN + _OV + _TF + ["contracts.tags"] + _SP + _LC,
+    "C05": _OV + _LC + _TF + _MO, "C09": _OV, "C17": _OV + _LC + _MO, "C10": _OV + _LC + _TF + _SP + ["contracts.refs"],
     "C14": _LC + ["contracts.refs"] + _TF + _MO, "C18": _LC + _SP + ["contracts.refs"] + _MO, "C15": _SP + _MO, "C13": _SP + ["contracts.c12", "contracts.refs"] + _MO,
 }
 
@@ -116,7 +116,7 @@ def run_canaries(prop):
     sd = os.path.join(ROOT, "seeded")
     repo = os.environ.get("PVC_REPO", "/repo")
     for d in sorted(os.listdir(sd)) if os.path.isdir(sd) else []:
-        if d.split("-")[0].rstrip("bc") != prop or not os.path.exists(os.path.join(sd, d, "patch.diff")):
+        if d.split("-")[0].rstrip("bcdefg") != prop or not os.path.exists(os.path.join(sd, d, "patch.diff")):
             continue
         tmp = tempfile.mkdtemp(prefix="pvc_canary_")
         try:
